@@ -4,8 +4,262 @@ import (
 	"fmt"
 	"go/ast"
 	"go/token"
+	"sort"
 	"strconv"
+	"strings"
 )
+
+// ---- lock-order skeleton of event.go (C39) ---------------------------------------------
+//
+// For every function of the file: the ordered list of mutex acquisitions and of calls to other
+// functions of the file, each with the set of mutex CLASSES held at that point. A mutex class
+// is "<Struct>.<field>" of a sync.Mutex / sync.RWMutex field (Dispatcher.mutex,
+// Subscription.closeMu, Subscription.postMu); Lock and RLock count alike; `defer X.Unlock()`
+// keeps X held to the end of the function. A nested block that ends in `return` is walked
+// with a copy of the held set; any other nested block must leave the held set as it found it.
+// Fails loudly on: a lock expression that is not a known mutex field, an unlock of something
+// not held, a nested block that changes the held set without returning, go statements and
+// function literals that lock.
+type evLockWalk struct {
+	p       *n2file
+	classes map[string]string // field name -> "Struct.field"
+	funcs   map[string]string // method / function name -> "Recv.name"
+	out     []string
+	err     error
+}
+
+func (w *evLockWalk) lockCall(e ast.Expr) (op, class string, ok bool) {
+	call, isCall := e.(*ast.CallExpr)
+	if !isCall || len(call.Args) != 0 {
+		return
+	}
+	sel, isSel := call.Fun.(*ast.SelectorExpr)
+	if !isSel {
+		return
+	}
+	switch sel.Sel.Name {
+	case "Lock", "RLock", "Unlock", "RUnlock":
+	default:
+		return
+	}
+	inner, isSel2 := sel.X.(*ast.SelectorExpr)
+	if !isSel2 {
+		w.err = fmt.Errorf("lock expression %s: not a struct field", w.p.str(sel.X))
+		return
+	}
+	cl, known := w.classes[inner.Sel.Name]
+	if !known {
+		w.err = fmt.Errorf("lock expression %s: %s is not a mutex field of this file", w.p.str(sel.X), inner.Sel.Name)
+		return
+	}
+	return sel.Sel.Name, cl, true
+}
+
+func evHeldStr(held []string) string {
+	h := append([]string(nil), held...)
+	sort.Strings(h)
+	return strings.Join(h, ",")
+}
+
+func (w *evLockWalk) expr(n ast.Node, held []string) {
+	// calls to functions of this file inside an expression / statement
+	ast.Inspect(n, func(x ast.Node) bool {
+		if w.err != nil {
+			return false
+		}
+		switch c := x.(type) {
+		case *ast.FuncLit:
+			ast.Inspect(c.Body, func(y ast.Node) bool {
+				if ce, ok := y.(*ast.CallExpr); ok {
+					if _, _, isLock := w.lockCall(ce); isLock {
+						w.err = fmt.Errorf("function literal that locks")
+					}
+				}
+				return true
+			})
+			return false
+		case *ast.CallExpr:
+			name := ""
+			switch f := c.Fun.(type) {
+			case *ast.Ident:
+				name = f.Name // plain function (a method cannot be called this way; `close(ch)` is the builtin)
+			case *ast.SelectorExpr:
+				name = "." + f.Sel.Name // method
+			}
+			if q, ok := w.funcs[name]; ok {
+				w.out = append(w.out, "call "+q+" held="+evHeldStr(held))
+			}
+		}
+		return true
+	})
+}
+
+func evRemove(held []string, c string) ([]string, bool) {
+	for i := len(held) - 1; i >= 0; i-- {
+		if held[i] == c {
+			return append(append([]string(nil), held[:i]...), held[i+1:]...), true
+		}
+	}
+	return held, false
+}
+
+// block walks statements; returns the held set at the end and whether the block returns.
+func (w *evLockWalk) block(stmts []ast.Stmt, held []string) ([]string, bool) {
+	for _, st := range stmts {
+		if w.err != nil {
+			return held, false
+		}
+		switch s := st.(type) {
+		case *ast.ExprStmt:
+			if op, cl, ok := w.lockCall(s.X); ok {
+				switch op {
+				case "Lock", "RLock":
+					w.out = append(w.out, "acq "+cl+" held="+evHeldStr(held))
+					held = append(append([]string(nil), held...), cl)
+				default:
+					var found bool
+					held, found = evRemove(held, cl)
+					if !found {
+						w.err = fmt.Errorf("unlock of %s which is not held", cl)
+					}
+				}
+				continue
+			}
+			if w.err != nil {
+				return held, false
+			}
+			w.expr(s, held)
+		case *ast.DeferStmt:
+			if op, _, ok := w.lockCall(s.Call); ok {
+				if op == "Lock" || op == "RLock" {
+					w.err = fmt.Errorf("deferred lock")
+				}
+				continue // deferred unlock: held to the end of the function
+			}
+			w.expr(s.Call, held)
+		case *ast.GoStmt:
+			w.err = fmt.Errorf("go statement")
+		case *ast.ReturnStmt:
+			w.expr(s, held)
+			return held, true
+		case *ast.IfStmt:
+			if s.Init != nil {
+				w.expr(s.Init, held)
+			}
+			w.expr(s.Cond, held)
+			w.nested(s.Body.List, held)
+			if s.Else != nil {
+				switch e := s.Else.(type) {
+				case *ast.BlockStmt:
+					w.nested(e.List, held)
+				default:
+					w.nested([]ast.Stmt{e}, held)
+				}
+			}
+		case *ast.ForStmt:
+			if s.Init != nil {
+				w.expr(s.Init, held)
+			}
+			if s.Cond != nil {
+				w.expr(s.Cond, held)
+			}
+			w.nested(s.Body.List, held)
+		case *ast.RangeStmt:
+			w.expr(s.X, held)
+			w.nested(s.Body.List, held)
+		case *ast.SelectStmt:
+			for _, c := range s.Body.List {
+				cc := c.(*ast.CommClause)
+				if cc.Comm != nil {
+					w.expr(cc.Comm, held)
+				}
+				w.nested(cc.Body, held)
+			}
+		case *ast.SwitchStmt:
+			for _, c := range s.Body.List {
+				w.nested(c.(*ast.CaseClause).Body, held)
+			}
+		case *ast.BlockStmt:
+			w.nested(s.List, held)
+		default:
+			w.expr(st, held)
+		}
+	}
+	return held, false
+}
+
+func (w *evLockWalk) nested(stmts []ast.Stmt, held []string) {
+	after, returns := w.block(stmts, held)
+	if w.err == nil && !returns && evHeldStr(after) != evHeldStr(held) {
+		w.err = fmt.Errorf("a nested block changes the set of held locks (%s -> %s) without returning", evHeldStr(held), evHeldStr(after))
+	}
+}
+
+func genEventLocks(p *n2file) ([][2]string, error) {
+	w := &evLockWalk{p: p, classes: map[string]string{}, funcs: map[string]string{}}
+	for _, d := range p.f.Decls {
+		gd, ok := d.(*ast.GenDecl)
+		if !ok {
+			continue
+		}
+		for _, sp := range gd.Specs {
+			ts, ok := sp.(*ast.TypeSpec)
+			if !ok {
+				continue
+			}
+			stt, ok := ts.Type.(*ast.StructType)
+			if !ok {
+				continue
+			}
+			for _, f := range stt.Fields.List {
+				t := p.str(f.Type)
+				if t == "sync.Mutex" || t == "sync.RWMutex" {
+					for _, n := range f.Names {
+						if _, dup := w.classes[n.Name]; dup {
+							return nil, fmt.Errorf("mutex field name %s is used by two structs", n.Name)
+						}
+						w.classes[n.Name] = ts.Name.Name + "." + n.Name
+					}
+				}
+			}
+		}
+	}
+	var decls []*ast.FuncDecl
+	qname := map[*ast.FuncDecl]string{}
+	for _, d := range p.f.Decls {
+		fd, ok := d.(*ast.FuncDecl)
+		if !ok || fd.Body == nil {
+			continue
+		}
+		q, key := fd.Name.Name, fd.Name.Name
+		if fd.Recv != nil && len(fd.Recv.List) == 1 {
+			t := fd.Recv.List[0].Type
+			if s, ok := t.(*ast.StarExpr); ok {
+				t = s.X
+			}
+			q = p.str(t) + "." + q
+			key = "." + fd.Name.Name
+		}
+		if _, dup := w.funcs[key]; dup {
+			return nil, fmt.Errorf("function name %s is declared twice (calls are resolved by name)", fd.Name.Name)
+		}
+		w.funcs[key] = q
+		qname[fd] = q
+		decls = append(decls, fd)
+	}
+	var res [][2]string
+	for _, fd := range decls {
+		w.out = nil
+		w.block(fd.Body.List, nil)
+		if w.err != nil {
+			return nil, fmt.Errorf("lock skeleton of %s: %v", qname[fd], w.err)
+		}
+		for _, o := range w.out {
+			res = append(res, [2]string{qname[fd], o})
+		}
+	}
+	return res, nil
+}
 
 // Facts of event/event.go the dispatcher model depends on (C39):
 //   - maxEventChSize (capacity of every subscription channel)
@@ -123,6 +377,25 @@ func genEvent(repo string) (string, error) {
 		}
 		return true
 	})
+	locks, err := genEventLocks(p)
+	if err != nil {
+		return "", err
+	}
+	lockLines := ""
+	for i, l := range locks {
+		// (function, isCall, lock class or callee, classes held at that point)
+		parts := strings.SplitN(l[1], " held=", 2)
+		kind, target := strings.SplitN(parts[0], " ", 2)[0], strings.SplitN(parts[0], " ", 2)[1]
+		var held []string
+		if parts[1] != "" {
+			held = strings.Split(parts[1], ",")
+		}
+		sep := ","
+		if i == len(locks)-1 {
+			sep = ""
+		}
+		lockLines += fmt.Sprintf("  (%s, %v, %s, %s)%s\n", n2leanStr(l[0]), kind == "call", n2leanStr(target), n2leanStrList(held), sep)
+	}
 	out := "/- GENERATED by /verif/gen/event.go from event/event.go — do not edit -/\n" +
 		"namespace BytomModel.Gen.Event\n\n" +
 		fmt.Sprintf("def maxEventChSize : Nat := %d\n", capN) +
@@ -131,6 +404,8 @@ func genEvent(repo string) (string, error) {
 		fmt.Sprintf("def postGuard : String := %s\n", n2leanStr(postGuard)) +
 		fmt.Sprintf("def postGuardError : String := %s\n", n2leanStr(postErr)) +
 		fmt.Sprintf("def stopAssigns : List String := %s\n", n2leanStrList(stopAssigns)) +
+		"/-- lock skeleton: (function, isCall, mutex class acquired | function called, mutex classes held) in source order -/\n" +
+		"def lockSkel : List (String × Bool × String × List String) := [\n" + lockLines + "]\n" +
 		"\nend BytomModel.Gen.Event\n"
 	return out, nil
 }
